@@ -1,3 +1,253 @@
 import TTModel.Proto
-/-! C12 driver — stub (not built yet): answers `bad-op` to everything. -/
-def main : IO Unit := TT.Proto.mainLoop fun _ => "bad-op"
+import TTModel.C12_Expr
+import TTModel.C12_Models
+import TTModel.C12_Pruning
+import TTModel.C04_Subst
+import TTModel.C05_SiteModel
+import TTModel.C06_Heights
+import TTModel.C08_Coalescent
+/-!
+C12 driver: value and forward-mode gradient (`Dual Float`) of the density models.
+Request: `<op> <ints…> | <group> | <group> …`; floats are 16-hex-digit IEEE bit patterns, integers decimal.
+Reply: hex floats separated by blanks; `bad-op` for anything unknown or malformed.
+
+  coal_def  <const|skyride|skygrid> | θ… | heights… | grid…     C08 definitions run at Dual Float (sort included)
+            -> value, d/dθ_k …, d/dheight_i …
+  coal_expr <const|skyride|skygrid> <m> | θ… | sorted times… | sorted marks…      C12 builders
+            -> value, d/dθ_k …, d/dsorted_time_j …
+  gmrf      | field… | τ c | weights… (may be empty)            -> value, d/dfield_i …, d/dτ
+  weibull / weibull_def  <K> | shape | [pinv] | [mu]            -> rates…, then d rates/d shape, [d/d pinv], [d/d mu]
+  ratio / ratio_def <n> | p c p c … | det… | bounds(n-1) | x(n-1)
+            -> logJ, d logJ/dx_i …, heights…, then row i = d heights/dx_i
+  jc69 / jc69_def | t                                           -> a, da/dt, b, db/dt
+  prune <n> | node left right … | branch lengths (2n-2) | tip partials (site-major, taxon, 4 states)
+            -> log-likelihood (JC69), d/d branch_b …
+-/
+open TT TT.Proto TT.C12 TT.C12.Expr
+
+abbrev DF := Dual Float
+
+def splitGroups (ws : List String) : List (List String) :=
+  let rec go (ws : List String) (cur : List String) (acc : List (List String)) : List (List String) :=
+    match ws with
+    | [] => (cur.reverse :: acc).reverse
+    | w :: rest => if w = "|" then go rest [] (cur.reverse :: acc) else go rest (w :: cur) acc
+  go ws [] []
+
+def floats (g : List String) : Option (List Float) := g.mapM parseFloatBits
+def ints (g : List String) : Option (List Int) := g.mapM parseInt
+def nats (g : List String) : Option (List Nat) := g.mapM (·.toNat?)
+
+def showF (l : List Float) : String := " ".intercalate (l.map floatBits)
+
+/-- the list with tangent 1 at position `i` and 0 elsewhere -/
+def seedList (l : List Float) (i : Nat) : List DF :=
+  l.zipIdx.map fun (x, j) => ⟨x, if j = i then 1.0 else 0.0⟩
+
+def constList (l : List Float) : List DF := l.map fun x => ⟨x, 0.0⟩
+
+/-- value and gradient of `f` over the concatenation of the groups `gs` (every entry a coordinate) -/
+def gradGroups (gs : List (List Float)) (f : List (List DF) → DF) : List Float :=
+  let v := (f (gs.map constList)).v
+  let total := gs.zipIdx.flatMap fun (g, gi) => (List.range g.length).map fun i => (gi, i)
+  v :: total.map fun (gi, i) =>
+    (f (gs.zipIdx.map fun (g, gj) => if gj = gi then seedList g i else constList g)).d
+
+/-- environment from a list of duals -/
+def envD (l : List DF) : Nat → DF := fun i => l.getD i ⟨0.0, 0.0⟩
+
+/-! ### coalescents -/
+
+def coalDef (kind : String) (θ h grid : List DF) : Option DF :=
+  match kind with
+  | "const" => match θ with
+    | [t] => some (C08.constantLogProb t h)
+    | _ => none
+  | "skyride" => some (C08.skyrideLogProb θ h)
+  | "skygrid" => some (C08.skygridLogProb θ grid h)
+  | _ => none
+
+def coalExpr (kind : String) (m : Nat) (nθ nt : Nat) (marks : List Int) : Option Expr :=
+  let θs := (List.range nθ).map fun j => var j
+  let ts := (List.range nt).map fun j => var (nθ + j)
+  match kind with
+  | "const" => if nθ = 1 then some (constantE (var 0) ts marks m) else none
+  | "skyride" => some (skyrideE θs ts marks)
+  | "skygrid" => some (skygridE θs ts marks)
+  | _ => none
+
+/-! ### ratio transform -/
+
+def pairs : List Nat → Option (List (Nat × Nat))
+  | [] => some []
+  | a :: b :: rest => (pairs rest).map fun l => (a, b) :: l
+  | _ => none
+
+def triples : List Nat → Option (List (Nat × Nat × Nat))
+  | [] => some []
+  | a :: b :: c :: rest => (triples rest).map fun l => (a, b, c) :: l
+  | _ => none
+
+/-- `[logJ] ++ heights` from the builders; variables: `x_j = var j`, `b_j = var (m + j)`, `m = n - 1` -/
+def ratioExprs (n : Nat) (fwd : List (Nat × Nat)) (det : List Nat) : List Expr :=
+  let m := n - 1
+  let xE : Nat → Expr := fun j => var j
+  let bE : Nat → Expr := fun j => var (m + j)
+  let hE := heightsE fwd bE xE
+  logJacE det bE hE :: (List.range m).map hE
+
+/-- the same through the C06 definitions at `Dual Float`; `b` is addressed as `_bounds[n + j]` -/
+def ratioDef (n : Nat) (fwd : List (Nat × Nat)) (det : List Nat) (b x : List DF) : List DF :=
+  let m := n - 1
+  let bF : Nat → DF := fun i => b.getD (i - n) ⟨0.0, 0.0⟩
+  let xF : Nat → DF := fun j => x.getD j ⟨0.0, 0.0⟩
+  let h := C06.ratioFwd n bF fwd xF
+  (((C06.ratioDetTerms n bF det h).map Trans.log).sum) :: (List.range m).map h
+
+/-! ### pruning with JC69 -/
+
+def buildTree (n : Nat) (post : List (Nat × Nat × Nat)) : Option C01.ITree :=
+  let step (st : Option (List (Nat × C01.ITree))) (tr : Nat × Nat × Nat) : Option (List (Nat × C01.ITree)) := do
+    let st ← st
+    let get (i : Nat) : Option C01.ITree :=
+      if i < n then some (.leaf i) else (st.find? (·.1 = i)).map (·.2)
+    let l ← get tr.2.1
+    let r ← get tr.2.2
+    pure ((tr.1, .node tr.1 l r) :: st)
+  match post.foldl step (some []), post.getLast? with
+  | some st, some last => (st.find? (·.1 = last.1)).map (·.2)
+  | _, _ => none
+
+/-- tabulate a 4×4 matrix once -/
+def memoMat (f : Fin 4 → Fin 4 → DF) : Fin 4 → Fin 4 → DF :=
+  let a : Array DF := Array.ofFn fun i : Fin 16 =>
+    f ⟨i.val / 4, Nat.div_lt_of_lt_mul i.isLt⟩ ⟨i.val % 4, Nat.mod_lt _ (by decide)⟩
+  fun i j => a.getD (i.val * 4 + j.val) ⟨0.0, 0.0⟩
+
+def pruneLogLik (t : C01.ITree) (bl : List DF) (tips : Array Float) (n nsites : Nat) : DF :=
+  let mat : Nat → Fin 4 → Fin 4 → DF := fun b => memoMat (C04.jc69P (bl.getD b ⟨0.0, 0.0⟩))
+  let π : Fin 4 → DF := fun _ => ⟨0.25, 0.0⟩
+  ((List.range nsites).map fun s =>
+    let tip : Nat → Fin 4 → DF := fun i k => ⟨tips.getD ((s * n + i) * 4 + k.val) 0.0, 0.0⟩
+    Trans.log (siteLikT π tip mat t)).sum
+
+/-! ### dispatch -/
+
+def handleGroups (op : String) (args : List String) (gs : List (List String)) : Option String := do
+  match op, args, gs with
+  | "coal_def", [kind], [θ, h, grid] =>
+    let θ ← floats θ; let h ← floats h; let grid ← floats grid
+    if h.length % 2 == 0 then none
+    -- definedness of the kind
+    let _ ← coalDef kind (constList θ) (constList h) (constList grid)
+    let out := gradGroups [θ, h] fun g =>
+      match g with
+      | [θd, hd] => (coalDef kind θd hd (constList grid)).getD ⟨0.0, 0.0⟩
+      | _ => ⟨0.0, 0.0⟩
+    pure (showF out)
+  | "coal_expr", [kind, m], [θ, ts, marks] =>
+    let θ ← floats θ; let ts ← floats ts; let marks ← ints marks; let m ← m.toNat?
+    if marks.length != ts.length then none
+    let e ← coalExpr kind m θ.length ts.length marks
+    let out := gradGroups [θ, ts] fun g => eval (envD g.flatten) e
+    pure (showF out)
+  | "gmrf", [], [x, tc, w] =>
+    let x ← floats x; let tc ← floats tc; let w ← floats w
+    match tc with
+    | [τ, c] =>
+      if w.length != 0 && w.length + 1 != x.length then none
+      let n := x.length
+      let e := gmrfE ((List.range n).map var) (var n)
+        (if w.isEmpty then none else some ((List.range w.length).map fun j => var (n + 2 + j))) (var (n + 1))
+      let all := gradGroups [x, [τ], [c], w] fun g => eval (envD g.flatten) e
+      -- value, d/dx…, d/dτ
+      pure (showF (all.take (n + 2)))
+    | _ => none
+  | "weibull", [k], [sh, inv, mu] =>
+    let K ← k.toNat?; let sh ← floats sh; let inv ← floats inv; let mu ← floats mu
+    if K == 0 || sh.length != 1 || inv.length > 1 || mu.length > 1 then none
+    let nv := 1 + inv.length
+    let es := weibullRatesE K (var 0) (if inv.isEmpty then none else some (var 1))
+      (if mu.isEmpty then none else some (var nv))
+    let cols := es.map fun e => gradGroups [sh, inv, mu] fun g => eval (envD g.flatten) e
+    -- values of all rates, then per parameter the tangents of all rates
+    let nparam := 1 + inv.length + mu.length
+    let vals := cols.map fun c => c.headD 0.0
+    let tang := (List.range nparam).flatMap fun p => cols.map fun c => c.getD (p + 1) 0.0
+    pure (showF (vals ++ tang))
+  | "weibull_def", [k], [sh, inv, mu] =>
+    let K ← k.toNat?; let sh ← floats sh; let inv ← floats inv; let mu ← floats mu
+    if K == 0 || sh.length != 1 || inv.length > 1 || mu.length > 1 then none
+    let sm (g : List (List DF)) : C05.SM DF :=
+      match g with
+      | [s, i, m] => C05.weibull K (s.headD ⟨1.0, 0.0⟩) i.head? m.head?
+      | _ => C05.constant none
+    let rates (g : List (List DF)) : List DF := let s := sm g; (List.finRange s.n).map s.rates
+    let n := (rates [constList sh, constList inv, constList mu]).length
+    let cols := (List.range n).map fun r => gradGroups [sh, inv, mu] fun g => (rates g).getD r ⟨0.0, 0.0⟩
+    let nparam := 1 + inv.length + mu.length
+    let vals := cols.map fun c => c.headD 0.0
+    let tang := (List.range nparam).flatMap fun p => cols.map fun c => c.getD (p + 1) 0.0
+    pure (showF (vals ++ tang))
+  | "ratio", [n], [fwd, det, b, x] =>
+    let n ← n.toNat?; let fwd ← nats fwd; let fwd ← pairs fwd; let det ← nats det
+    let b ← floats b; let x ← floats x
+    if n < 2 || b.length != n - 1 || x.length != n - 1 then none
+    let es := ratioExprs n fwd det
+    let cols := es.map fun e => gradGroups [x, b] fun g => eval (envD g.flatten) e
+    let m := n - 1
+    let logJ := cols.headD []
+    let hs := cols.drop 1
+    -- logJ, d logJ/dx_i, heights, rows i: d h_k / d x_i
+    let out := (logJ.take (m + 1)) ++ hs.map (fun c => c.headD 0.0)
+      ++ (List.range m).flatMap fun i => hs.map fun c => c.getD (i + 1) 0.0
+    pure (showF out)
+  | "ratio_def", [n], [fwd, det, b, x] =>
+    let n ← n.toNat?; let fwd ← nats fwd; let fwd ← pairs fwd; let det ← nats det
+    let b ← floats b; let x ← floats x
+    if n < 2 || b.length != n - 1 || x.length != n - 1 then none
+    let m := n - 1
+    let cols := (List.range (m + 1)).map fun r => gradGroups [x] fun g =>
+      match g with
+      | [xd] => (ratioDef n fwd det (constList b) xd).getD r ⟨0.0, 0.0⟩
+      | _ => ⟨0.0, 0.0⟩
+    let logJ := cols.headD []
+    let hs := cols.drop 1
+    let out := (logJ.take (m + 1)) ++ hs.map (fun c => c.headD 0.0)
+      ++ (List.range m).flatMap fun i => hs.map fun c => c.getD (i + 1) 0.0
+    pure (showF out)
+  | "jc69", [], [t] =>
+    let t ← floats t
+    match t with
+    | [t] =>
+      let a := eval (envD [⟨t, 1.0⟩]) (jcDiagE (var 0))
+      let b := eval (envD [⟨t, 1.0⟩]) (jcOffE (var 0))
+      pure (showF [a.v, a.d, b.v, b.d])
+    | _ => none
+  | "jc69_def", [], [t] =>
+    let t ← floats t
+    match t with
+    | [t] =>
+      let P := C04.jc69P (⟨t, 1.0⟩ : DF)
+      pure (showF [(P 0 0).v, (P 0 0).d, (P 0 1).v, (P 0 1).d])
+    | _ => none
+  | "prune", [n], [post, bl, tips] =>
+    let n ← n.toNat?; let post ← nats post; let post ← triples post
+    let bl ← floats bl; let tips ← floats tips
+    if n < 2 || bl.length != 2 * n - 2 || tips.length % (4 * n) != 0 then none
+    let t ← buildTree n post
+    let nsites := tips.length / (4 * n)
+    let arr := tips.toArray
+    let out := gradGroups [bl] fun g =>
+      match g with
+      | [bd] => pruneLogLik t bd arr n nsites
+      | _ => ⟨0.0, 0.0⟩
+    pure (showF out)
+  | _, _, _ => none
+
+def handle (line : String) : String :=
+  match splitGroups (splitWords line) with
+  | (op :: args) :: gs => (handleGroups op args gs).getD "bad-op"
+  | _ => "bad-op"
+
+def main : IO Unit := mainLoop handle
